@@ -40,7 +40,7 @@ WITNESS_CAP = {'quick': 25, 'thorough': 50}
 LOOP_BOUND = 16
 
 OPS = ['save_clusters', 'save_original', 'meta_int_a', 'meta_int_b', 'meta_str', 'meta_real', 'foreign_tsv', 'foreign_csv',
-       'malformed', 'subset', 'reload']
+       'malformed', 'subset', 'foreign_collide', 'reload']
 MALFORMED = ['', 'cluster_id\tbad\n', 'cluster_id\tbad\n1\n2\tx\ty\n', 'foo\tbar\n1\t2\n']
 
 
@@ -71,6 +71,7 @@ class Ref(object):
     def __init__(self, ds):
         self.sc = list(ds.sc)
         self.meta = {}
+        self.saved = set()
         self.store = False
 
 
@@ -92,6 +93,7 @@ def apply_op(op, i, e, m, ds, ref, d, vals, real=False):
         mp = {vals['k0']: vals['v0']} if op == 'meta_int_b' else {vals['k0']: vals['v0'], vals['k1']: vals['v1']}
         m.save_metadata('quality', mp)
         ref.meta['quality'] = dict(mp)
+        ref.saved.add('quality')
     elif op == 'meta_str':
         mp = {vals['k0']: 'good', vals['k1']: None, 5: 'mua, maybe'}
         m.save_metadata('note', mp)
@@ -100,6 +102,7 @@ def apply_op(op, i, e, m, ds, ref, d, vals, real=False):
         mp = {vals['k0']: vals['x0'], 4: 0.25}
         m.save_metadata('score', mp)
         ref.meta['score'] = dict(mp)
+        ref.saved.add('score')
     elif op == 'foreign_tsv':
         write_text(d, 'cluster_group.tsv', 'cluster_id\tgroup\n0\tgood\n3\tnoise\n', real)
         ref.meta['group'] = {0: 'good', 3: 'noise'}
@@ -107,6 +110,13 @@ def apply_op(op, i, e, m, ds, ref, d, vals, real=False):
         write_text(d, 'cluster_depth.csv', 'cluster_id,depth,ch\n1,2.5,7\n2,,3\n', real)
         ref.meta['depth'] = {1: 2.5}
         ref.meta['ch'] = {1: 7, 2: 3}
+    elif op == 'foreign_collide':
+        # a legacy table of another tool carrying columns named like fields that are (or will be) saved:
+        # the saved mapping is what a reload must show, whatever the file names are
+        write_text(d, 'legacy_labels.csv', 'cluster_id,quality,score\n0,7,1.5\n', real)
+        for f, mp in (('quality', {0: 7}), ('score', {0: 1.5})):
+            if f not in ref.saved:
+                ref.meta[f] = mp
     elif op == 'malformed':
         write_text(d, 'cluster_bad%d.tsv' % vals['which'], MALFORMED[vals['which']], real)
         if vals['which'] == 2:
